@@ -220,7 +220,7 @@ theorem recv_inv (p : Proto W I) (d : Bytes) (h : Inv S guid p) : Inv S guid (re
           by_cases hb : b = 0
           · subst hb
             rw [recv_first_nul S p d' hcr ha hf]
-            exact recvLines_inv S guid { p with firstByte := false } d' h hcr ha
+            exact recvLines_inv S guid p.dropFirst d' h hcr ha
           · rw [recv_first_bad S p b d' hcr ha hf hb]
             exact inv_dead S guid p p.close h (Or.inl rfl) ha rfl (fun hx => hx)
       | false =>
